@@ -299,13 +299,22 @@ func (b Builder) abiExtendedFields(t types.Type, name string) (fields []llvm.Val
 		hash := b.Pkg.rtFunc("typehash")
 		env := b.abiType(t.Key())
 		hasher := b.aggregateValue(prog.Type(hashFunc, InGo), hash.impl, env.impl)
+		// KeySize/ValueSize are the sizes of the bucket's key and elem SLOTS: a key
+		// or elem stored indirectly (larger than 128 bytes) occupies a pointer.
+		keySize, elemSize := uint64(prog.abi.Size(t.Key())), uint64(prog.abi.Size(t.Elem()))
+		if flags&1 != 0 {
+			keySize = uint64(prog.PointerSize())
+		}
+		if flags&2 != 0 {
+			elemSize = uint64(prog.PointerSize())
+		}
 		fields = []llvm.Value{
 			b.abiType(abi.PublicType(t.Key())).impl,
 			b.abiType(abi.PublicType(t.Elem())).impl,
 			b.abiType(bucket).impl,
 			hasher.impl,
-			prog.IntVal(uint64(prog.abi.Size(t.Key())), prog.Byte()).impl,
-			prog.IntVal(uint64(prog.abi.Size(t.Elem())), prog.Byte()).impl,
+			prog.IntVal(keySize, prog.Byte()).impl,
+			prog.IntVal(elemSize, prog.Byte()).impl,
 			prog.IntVal(uint64(prog.abi.Size(bucket)), prog.Uint16()).impl,
 			prog.IntVal(uint64(flags), prog.Uint32()).impl,
 		}
